@@ -11,8 +11,14 @@ with T in u8 u16 u32 u64 usize unit f64 and O in vec iopt ilist.
 """
 import os, sys, hashlib
 
-ELEM_BITS = {'u8': 8, 'u16': 16, 'u32': 32, 'u64': 64, 'usize': 64}
-ELEM_SIZE = {'u8': 1, 'u16': 2, 'u32': 4, 'u64': 8, 'usize': 8, 'unit': 0, 'f64': 8}
+ELEM_BITS = {'u8': 8, 'u16': 16, 'u32': 32, 'u64': 64, 'usize': 64, 'u128': 128}
+ELEM_SIZE = {'u8': 1, 'u16': 2, 'u32': 4, 'u64': 8, 'usize': 8, 'unit': 0, 'f64': 8,
+             'u128': 16, 'i8': 1, 'i64': 8, 'i128': 16, 'bool': 1, 'char': 4, 'f32': 4, 'wi32': 4}
+# element types beyond the unsigned words: how they appear in Rust and in the Coq model (Wire.v)
+ELEM_RUST = {'unit': '()', 'wi32': 'std::num::Wrapping<i32>'}
+ELEM_COQ = {'unit': 'e_unit', 'f64': 'e_f64', 'f32': 'e_f32', 'bool': 'e_bool', 'char': 'e_char',
+            'i8': '(e_bits 8)', 'i64': '(e_bits 64)', 'i128': '(e_bits 128)', 'wi32': '(e_bits 32)'}
+UNORDERED = ('f64', 'f32', 'i8', 'i64', 'i128', 'wi32')   # no order claimed by the model (IEEE / signed)
 
 def own(t): return ('own', t)
 def mir(t): return ('mir', t)
@@ -101,6 +107,10 @@ ENTRIES = [
     ('sl_tup3_mir_u8_str_opt', sl(tupn(mir('u8'), STR, opt(mir('u16'))))),
     ('tup5_mir_str_own_opt_col', tupn(mir('u8'), STR, own('u16'), opt(STR), col(STR))),
     ('tup2_cdc_str', tup2(CDC, STR)),
+    # the other primitive types MirrorRegion is implemented for (signed, 128-bit, bool, char, f32, Wrapping)
+    ('mir_i8', mir('i8')), ('mir_i64', mir('i64')), ('mir_u128', mir('u128')), ('mir_i128', mir('i128')),
+    ('mir_bool', mir('bool')), ('mir_char', mir('char')), ('mir_f32', mir('f32')), ('mir_wi32', mir('wi32')),
+    ('sl_mir_i64', sl(mir('i64'))), ('opt_mir_char', opt(mir('char'))),
 ]
 
 # FlatStack<R, S> entries: name -> (region expression, index container)
@@ -174,7 +184,7 @@ def strip_str(e):
     return strip_str(e[1]) if e[0] == 'strof' else e
 
 # ---------------------------------------------------------------- Rust
-def rust_elem(t): return '()' if t == 'unit' else t
+def rust_elem(t): return ELEM_RUST.get(t, t)
 
 def rust_ic(o, idx_ty):
     return {'vec': f'Vec<{idx_ty}>', 'iopt': 'IndexOptimized', 'ilist': 'IndexList<Vec<u32>, Vec<u64>>'}[o]
@@ -226,10 +236,10 @@ def ref_ok(e):
 def cmp_ok(e):
     """is the read item Ord (slices of comparable things, strings, integers)?"""
     k = e[0]
-    if k == 'own': return e[1] not in ('f64',)
+    if k == 'own': return e[1] not in UNORDERED
     if k in ('cdc', 'huf'): return True
-    if k == 'mir': return e[1] not in ('f64',)
-    if k == 'vecr': return e[1] not in ('f64',)
+    if k == 'mir': return e[1] not in UNORDERED
+    if k == 'vecr': return e[1] not in UNORDERED
     if k in ('str', 'strof'): return True
     if k == 'sl': return cmp_ok(e[1])
     if k == 'cols': return False
@@ -483,8 +493,7 @@ def gen_rust():
 
 # ---------------------------------------------------------------- Coq
 def coq_elem(t):
-    if t == 'unit': return 'e_unit'
-    if t == 'f64': return 'e_f64'
+    if t in ELEM_COQ: return ELEM_COQ[t]
     return f'(e_word {ELEM_BITS[t]})'
 
 def idx_size(k):
